@@ -1,0 +1,43 @@
+//! Verification hooks (feature `verif-hooks`).
+#![allow(missing_docs)]
+use std::{
+    future::Future,
+    pin::Pin,
+    sync::{Arc, Mutex},
+    task::{Context, Poll},
+};
+
+/// Controller deciding when a task may pass a yield point.
+pub trait YieldController: Send + Sync {
+    /// Called on every poll of a yield point. Return Ready to let the task pass.
+    fn poll_point(&self, label: &'static str, token: &mut u64, cx: &mut Context<'_>) -> Poll<()>;
+}
+
+static CONTROLLER: Mutex<Option<Arc<dyn YieldController>>> = Mutex::new(None);
+
+pub fn install(c: Option<Arc<dyn YieldController>>) {
+    *CONTROLLER.lock().unwrap() = c;
+}
+
+pub struct YieldPoint {
+    label: &'static str,
+    token: u64,
+}
+
+pub fn yield_point(label: &'static str) -> YieldPoint {
+    YieldPoint { label, token: 0 }
+}
+
+impl Future for YieldPoint {
+    type Output = ();
+    fn poll(mut self: Pin<&mut Self>, cx: &mut Context<'_>) -> Poll<()> {
+        let c = CONTROLLER.lock().unwrap().clone();
+        match c {
+            None => Poll::Ready(()),
+            Some(c) => {
+                let label = self.label;
+                c.poll_point(label, &mut self.token, cx)
+            }
+        }
+    }
+}
